@@ -33,6 +33,13 @@ def population(rng, quick):
         s = "+".join(["(."] + [".."] * (k - 2) + [".)"])
         pop.append((gs.seq_for(rng, s, names=("a", "b")), list(s)))
         pop.append((lc.periodic_seq(s), list(s)))
+    # distinct strands whose names concatenate to the same text, under structures that repeat per strand
+    for sq_, st_ in ((["ab", "c", "+", "a", "bc"], "..+.."), (["ab", "c", "+", "a", "bc"], "((+))"), (["a", "bc", "+", "ab", "c"], "(.+.)"),
+                     (["x", "yz", "+", "xy", "z", "+", "x", "yz"], "..+..+.."), (["x", "yz", "+", "xy", "z", "+", "x", "yz"], "(.+..+.)"),
+                     (["ab", "c", "+", "a", "bc", "+", "ab", "c", "+", "a", "bc"], "..+..+..+.."),
+                     (["a", "a*", "+", "aa", "*a"], "..+.."), (["d1", "0", "+", "d", "10"], "..+.."),
+                     (["a", "b", "c", "+", "ab", "c", "+", "a", "bc"], "...+..+..")):
+        pop.append((list(sq_), list(st_)))
     pop.append((["a", "+", "a*", "+", "a", "+", "a*"], list("(+)+(+)")))
     pop.append((["a", "+", "a*", "+", "a", "+", "a*"], list("(+(+)+)")))
     for _ in range(40 if quick else 600):
